@@ -257,7 +257,7 @@ func (x *Exec) mergeStates(a, b *State) *State {
 			return ta
 		}
 		it := MergeTerm(g, ta, tb)
-		if it.Op == "ite" && len(it.String()) > 400 {
+		if (it.Op == "ite" && len(it.String()) > 400) || len(it.String()) > 1500 {
 			f := x.sym.Fresh("m_"+hint, ta.Sort)
 			m.pc = append(m.pc, Implies(ga, Eq(f, ta)), Implies(Not(ga), Eq(f, tb)))
 			return f
